@@ -162,6 +162,12 @@ func verifSetupPass(o verifPassOpts) *verifPass {
 				occ.Owners = []metav1.OwnerReference{ref}
 				p.occupantOwned = ref.Controller != nil && *ref.Controller && ref.Kind == execution.KindJob && ref.UID == j.rj.UID
 			}
+			if vz.Bool("occupant.beingDeleted") {
+				// e.g. a Pod stuck in Terminating (finalizer, unreachable node): it may never go away
+				t := metav1.NewTime(j.now.Add(-time.Minute))
+				occ.DeletionTS = &t
+				vz.Cover("occupant-being-deleted")
+			}
 			p.te.Cache = append(p.te.Cache, occ)
 			return nil, fakes.AlreadyExistsPod(name)
 		case 3:
